@@ -1,8 +1,9 @@
 (* C03 -- CFB, CFB-8 and OFB compute exactly their defining recurrences, for every cipher E (no
    hypothesis: E need not be injective), every schedule, in place or buffer to buffer; the
    decryption direction D of the cipher never enters a data path.
-   PARTIAL: the one-shot (AsyncStreamCipher) partial tail is not proved; the buffered types are. *)
-From BM Require Import BlockModes Spec BlockModes_proofs Plumbing Outcome Buf_proofs.
+   The one-shot (AsyncStreamCipher) calls, partial tail included, and the buffered types are covered
+   as well (C03_oneshot_*, C03_buffered_cfb). *)
+From BM Require Import BlockModes Spec BlockModes_proofs Plumbing Outcome Buf_proofs Interp Async_proofs.
 
 (* CFB: the object stores s = E(chaining value); with s = E(IV) the outputs are C_i = P_i xor E(C_{i-1}) *)
 Theorem C03_cfb_enc : forall (C : cipher) sched iv cs, sched_total sched = length cs ->
@@ -76,3 +77,31 @@ Theorem C03_buffered_cfb : forall (C : cipher), (forall x, length x = c_bs C -> 
      Ok (st', concat (cfb_dec_spec (c_E C) iv blocks) ++ xorb tail (c_E C (last blocks iv)))).
 Proof. intros C HE Hb iv blocks tail H1 H2 H3. split; [now apply buf_enc_spec | now apply buf_dec_spec]. Qed.
 Print Assumptions C03_buffered_cfb.
+
+(* one-shot CFB (AsyncStreamCipher::encrypt/decrypt, in place or buffer-to-buffer with any output
+   contents), as the interpreter dispatches it: whole blocks by the recurrence, the final partial
+   block xored with the leading bytes of E(last ciphertext block) *)
+Theorem C03_oneshot_cfb_enc : forall (C : cipher), cipher_wf C -> forall iv (al : bool) (inb outb : list N) (bl : list block) (tail : list N),
+  length iv = c_bs C -> inb = concat bl ++ tail -> all_len (c_bs C) bl -> length tail < c_bs C ->
+  length outb = length inb -> (al = true -> inb = outb) ->
+  snd (async_inout (bm_mbs C KCfbE) (bm_single C KCfbE) (bm_blocks C KCfbE) (bm_init C KCfbE iv) al inb outb) =
+    concat (cfb_enc_spec (c_E C) iv bl) ++ xorb tail (c_E C (last (cfb_enc_spec (c_E C) iv bl) iv)).
+Proof. exact async_cfb_enc_spec. Qed.
+Print Assumptions C03_oneshot_cfb_enc.
+
+Theorem C03_oneshot_cfb_dec : forall (C : cipher), cipher_wf C -> forall iv (al : bool) (inb outb : list N) (bl : list block) (tail : list N),
+  length iv = c_bs C -> inb = concat bl ++ tail -> all_len (c_bs C) bl -> length tail < c_bs C ->
+  length outb = length inb -> (al = true -> inb = outb) ->
+  snd (async_inout (bm_mbs C KCfbD) (bm_single C KCfbD) (bm_blocks C KCfbD) (bm_init C KCfbD iv) al inb outb) =
+    concat (cfb_dec_spec (c_E C) iv bl) ++ xorb tail (c_E C (last bl iv)).
+Proof. exact async_cfb_dec_spec. Qed.
+Print Assumptions C03_oneshot_cfb_dec.
+
+(* one-shot CFB-8 from any register: the byte-level recurrence of the statement *)
+Theorem C03_oneshot_cfb8 : forall (C : cipher), cipher_wf C -> forall (enc : bool) s x (al : bool) (inb outb : list N),
+  length s = c_bs C -> length outb = length inb -> (al = true -> inb = outb) ->
+  let k := if enc then KCfb8E else KCfb8D in
+  snd (async_inout (bm_mbs C k) (bm_single C k) (bm_blocks C k) (s, x) al inb outb) =
+    if enc then cfb8_enc_spec (c_E C) s inb else cfb8_dec_spec (c_E C) s inb.
+Proof. exact async_cfb8_spec. Qed.
+Print Assumptions C03_oneshot_cfb8.
